@@ -117,6 +117,28 @@ def gen(rng, tier, focus):
                     lines.append(enc_args(a))
                 stmts.append((qid, ds, opts, mode, txt, argsets, m))
             lines.append("SQLCLOSE " + h)
+    # a data column that is itself called count (and one called text), grouped by, in every
+    # position: names, types and values of the result columns are positional
+    ds = dp.Dataset("qc", [{b"count": b"7", b"a": b"1", b"text": b"t"}, {b"count": b"7", b"a": b"2"}, {b"count": b"9", b"a": b"1", b"text": b"u"},
+                           {b"count": b"", b"a": b"1"}, {b"a": b"2", b"text": b"t"}, {b"count": b"count", b"a": b"1", b"bigint": b"5"}], "count-column")
+    lines += ds.lines()
+    fixed = [(b'a = "1" ; count', ("E", b"a", b"1", 0), [b"count"]), (b'a = "1" ; count, a', ("E", b"a", b"1", 0), [b"count", b"a"]),
+             (b'a = "1" ; a, count', ("E", b"a", b"1", 0), [b"a", b"count"]), (b'count = "7" ; count, count', ("E", b"count", b"7", 0), [b"count", b"count"]),
+             (b'count = "7" ; text, count, a', ("E", b"count", b"7", 0), [b"text", b"count", b"a"]), (b'count = "nope" ; count', ("E", b"count", b"nope", 0), [b"count"]),
+             (b'count = "count"', ("E", b"count", b"count", 0), []), (b'count = $1 ; bigint, count', ("E", b"count", b"", 1), [b"bigint", b"count"])]
+    for oi, opts in enumerate(OPTS[:2]):
+        h = "qc_o%d" % oi
+        lines.append("SQLOPEN %s qc %s" % (h, opts))
+        for qn, (txt, t, gb) in enumerate(fixed):
+            m = max_ph(t)
+            mode = ["direct", "prepared", "tx"][(qn + oi) % 3]
+            argsets = [[("S", b"count")]] if m else [[]]
+            qid = "%s.s%d" % (h, qn)
+            lines.append("SQLQ %s %s %s %s %d" % (qid, h, mode, core.enc_str(txt), len(argsets)))
+            for a in argsets:
+                lines.append(enc_args(a))
+            stmts.append((qid, ds, opts, mode, txt, argsets, m))
+        lines.append("SQLCLOSE " + h)
     return lines, stmts
 
 
